@@ -11,7 +11,8 @@
      pkg/apk/apk/index.go      the key-name check of parseRepositoryIndex
      pkg/apk/fs/memfs.go, pkg/tarfs/fs.go   getNodeCountLinks (same text twice)
 
-   Quirks are kept: the prefix tests are tests on STRINGS.  net/url's
+   Quirks are kept: cacheFileFromEtag's prefix test is a test on STRINGS (the
+   other four tests are component-wise since fixes 566455e / 75bbb04).  net/url's
    URL.String() is not modelled: [cache_path_from_url] takes its result as an
    argument (see the note there). *)
 From Apko Require Import Base.Prelude Base.C18Path Generated.C18.
@@ -19,20 +20,28 @@ Open Scope list_scope.
 
 (* ---- prefix-tested joins ------------------------------------------------ *)
 
+(* isWithin(base, p) of rwosfs.go (and the same test inline in common.go):
+   filepath.Rel succeeds and its result neither is ".." nor starts with "../" *)
+Definition is_within (base p : str) : bool := within base p.
+
 (* sanitizePath(base, p) *)
 Definition sanitize_path (base p : str) : option str :=
   let v := join [base; p] in
-  if has_prefix (clean v) base then Some v else None.
+  if is_within base v then Some v else None.
 
 (* sanitizeArchivePath(d, t) *)
 Definition sanitize_archive_path (d t : str) : option str :=
   let v := join [d; t] in
-  if has_prefix v (clean d) then Some v else None.
+  if is_within d v then Some v else None.
 
 (* the test at the top of dirFS.Link; the path handed to os.Link when it passes *)
 Definition link_target (base oldname : str) : option str :=
   let target := clean (join [base; oldname]) in
-  if has_prefix target base then Some target else None.
+  if is_within base target then Some target else None.
+
+(* what the three tests were before fix 566455e, and what cacheFileFromEtag
+   still does: a prefix test on the STRINGS *)
+Definition string_prefix_test (base p : str) : bool := has_prefix p base.
 
 (* every other mutating dirFS method: filepath.Join(f.base, name), no test *)
 Definition dirfs_host_path (base name : str) : str := join [base; name].
@@ -130,7 +139,8 @@ Definition cache_path_from_url (root ustr path : str) : option str :=
   let archDir := dir path in
   let d := base archDir in
   let cacheFile := clean (join [root; qescape ustr; d; filename]) in
-  if has_prefix cacheFile (clean root) then Some cacheFile else None.
+  (* since fix 75bbb04: component-wise, and the root itself is refused *)
+  if strictly_within (clean root) cacheFile then Some cacheFile else None.
 
 (* URL.String() for the plainest URLs (scheme://host + a path made of
    unreserved characters and '/'): used by the correspondence to cross-check
